@@ -60,6 +60,7 @@ type Oblig struct {
 	Solver  string
 	TimeMS  int64
 	Model   string
+	Relaxed string // solver output of the relaxed query (candidate model)
 	Raw     string
 	Inputs  map[string]string // name -> SMT term of function inputs (for replay)
 }
@@ -164,6 +165,8 @@ type FnRun struct {
 	errs     []string
 	inputs   map[string]string
 	maxPaths int
+	litAxioms map[string][]string
+	noBind   int
 	Props    []string
 	inlineStack []*ssa.Function
 	spans    map[*ssa.Function]map[ssa.Instruction]int
@@ -365,7 +368,7 @@ func (r *FnRun) loadInt(st *State, p string) string {
 }
 
 func (r *FnRun) bind(st *State, term, hint, sort string) string {
-	if len(term) < 24 && !strings.Contains(term, "select") {
+	if r.noBind > 0 || len(term) < 24 && !strings.Contains(term, "select") {
 		return term
 	}
 	v := r.fresh(hint, sort)
@@ -551,6 +554,10 @@ func (r *FnRun) oblig(st *State, kind, label string, site ssa.Instruction, goal,
 
 // check adds an obligation and then assumes the goal on the continuing path.
 func (r *FnRun) check(st *State, kind, label string, site ssa.Instruction, goal, desc string) {
+	if r.C != nil && r.C.Opts["ignore."+kind] != "" {
+		r.Assump[r.shortFn()+": obligations of kind "+kind+" are not generated ("+r.C.Opts["ignore."+kind]+")"] = true
+		return
+	}
 	props := r.C.Serves
 	r.oblig(st, kind, label, site, goal, desc, props)
 	if !strings.Contains(goal, "(forall ") {
@@ -609,12 +616,17 @@ func (r *FnRun) strLit(s string) string {
 		return n
 	}
 	name := r.fresh("lit_"+trunc(s, 12), "BSeq")
-	r.decls = append(r.decls, fmt.Sprintf("(assert (= (blen %s) %d))", name, len(s)))
+	var ax []string
+	ax = append(ax, fmt.Sprintf("(assert (= (blen %s) %d))", name, len(s)))
 	if len(s) <= 40 {
 		for i := 0; i < len(s); i++ {
-			r.decls = append(r.decls, fmt.Sprintf("(assert (= (bat %s %d) %d))", name, i, s[i]))
+			ax = append(ax, fmt.Sprintf("(assert (= (bat %s %d) %d))", name, i, s[i]))
 		}
 	}
+	if r.litAxioms == nil {
+		r.litAxioms = map[string][]string{}
+	}
+	r.litAxioms[name] = ax
 	r.litNames()[s] = name
 	r.inputs[key] = name
 	return name
@@ -748,6 +760,12 @@ func (r *FnRun) assumeTy(st *State, v string, t types.Type) {
 	if t == nil {
 		return
 	}
+	switch t.Underlying().(type) {
+	case *types.Chan, *types.Map:
+		// channels and maps are whole objects of their own type
+		st.assume(sOr(sEq(v, "null"), sAnd(sEq(sx("tyof", v), fmt.Sprint(r.W.tagFor(t))), sx("(_ is obj)", v))))
+		return
+	}
 	pt, ok := t.Underlying().(*types.Pointer)
 	if !ok {
 		return
@@ -757,6 +775,7 @@ func (r *FnRun) assumeTy(st *State, v string, t types.Type) {
 	default:
 		return
 	}
+	_ = 0
 	id := r.W.tagFor(pt.Elem())
 	st.assume(sOr(sEq(v, "null"), sEq(sx("tyof", v), fmt.Sprint(id))))
 	if !r.W.embeddable[types.TypeString(pt.Elem(), nil)] {
